@@ -491,5 +491,6 @@ int main(int argc, char *argv[])
     /* Output the file footer */
     printf("\n");
     printf("#endif\n");
+    printf("%s", noexecstack_note);
     return 0;
 }
